@@ -53,6 +53,11 @@ func main() {
 	if t := os.Getenv("VERIF_TIER"); t != "" && !flagSet("tier") {
 		*tier = t
 	}
+	if *prop == "all" {
+		// development aid (regression runs over seeded and refactored trees): one load, every property,
+		// only non-discharged obligations are printed; no evidence is written
+		os.Exit(runAll(*repo))
+	}
 	r, ok := rules.Registry[*prop]
 	if !ok {
 		fmt.Printf("internal error: no rules for property %q\n", *prop)
